@@ -20,6 +20,17 @@ Theorem C17_candidate_heals : forall t s ag c v fr ft a b l,
   certified t (add_local_audit s (new_audit a b l)) c v.
 Proof. exact candidate_heals. Qed.
 
+(* "the criteria `certify` pre-selects for a given delta are ones for which that delta connects an audited version
+   to a needed one": every pre-selected criterion is failed by some package of that crate, with [from] among the
+   versions reachable from the root and [to] among those from which the target is reachable for exactly that
+   criterion — the situation in which C17_candidate_heals applies *)
+Theorem C17_preselected_criteria_connect : forall (r : report) (name : N) (from : ver) (to : N) c,
+  cs_has c (suggested_criteria r name from to) = true ->
+  exists i cf rs fr ft, In (i, cf) (failures_of r) /\ pk_name (get_pkg (g_pkgs (Resolve.r_graph r)) i) = name /\
+    po_result (nth i (r_outcomes r) {| po_result := PFirstParty; po_failures := 0; po_needed_exemptions := false; po_directly_exempted := false |}) = PSearched rs /\
+    cs_has c cf = true /\ nth (N.to_nat c) rs SFuel = SErr fr ft /\ In from fr /\ In (Some to) ft.
+Proof. exact suggested_criteria_spec. Qed.
+
 (* de-duplication of suggestions keeps the criteria of every merged item (fact
    re-read from resolver.rs by the translator; with it off, the F-C17 defect returns) *)
 Theorem C17_dedup_merges_criteria : SUGGEST_DEDUP_MERGES_CRITERIA = true.
@@ -66,5 +77,6 @@ Proof. vm_compute. split; [eexists; split; reflexivity|auto]. Qed.
 
 Print Assumptions C17_suggested_pair_is_common.
 Print Assumptions C17_candidate_heals.
+Print Assumptions C17_preselected_criteria_connect.
 Print Assumptions C17_dedup_keeps_all_criteria.
 Print Assumptions C17_certifying_every_suggestion_makes_vet_pass.
